@@ -28,16 +28,25 @@ RULE  = ("term lists are ENUMERATED: every list of 1..4 terms x^i a^j with 1 <= 
          "history on ONE encoder: 4-8 encodes that mix the x of one input with the a of another, bring equal values back "
          "(the very object passed before or an equal new one) and, between the calls, edit in place (append / zero / clear "
          "/ grow / item assignment) results handed out earlier and (add / drop / change a feature) the lists and dicts that "
-         "were passed; a history is distinct by (term list, step pattern)")
-PLAN  = {"quick":    {"shards": 16, "cases": 20000,  "timeout": 600,  "budget_s": 80,  "inputs": 3, "history_frac": .3, "one_term_histories": 2},
-         "thorough": {"shards": 16, "cases": 168420, "timeout": 3000, "budget_s": 2400, "inputs": 4, "history_frac": .25, "one_term_histories": 4}}
+         "were passed; a history is distinct by (term list, step pattern). WIDE: every shard also encodes namespaces far wider "
+         "than 6: 1-3 terms of degree <= 3 (+0-2 constants), one encoder for 2 inputs; the wide namespace (x, a or both) has "
+         "a width drawn from every scale 2^3..2^14 (2^k-1, 2^k, 2^k+1, 10^k and its neighbours, anything between), lowered until the "
+         "whole expansion stays under a monomial cap, and is a list/tuple/LazyDense/HashableDense of numbers (all-dense call, or "
+         "with a string / mapping / string-holding vector as the other namespace, or holding 1-3 strings itself, one of them often last) "
+         "or a dict/LazySparse/HashableSparse with str or int keys in shuffled order; values are distinct primes, a one-hot "
+         "vector (hot position often the last) or small repeating numbers")
+PLAN  = {"quick":    {"shards": 16, "cases": 20000,  "timeout": 600,  "budget_s": 80,  "inputs": 3, "history_frac": .3, "one_term_histories": 2, "wide": 60, "wide_cap": 60000},
+         "thorough": {"shards": 16, "cases": 168420, "timeout": 3000, "budget_s": 2400, "inputs": 4, "history_frac": .25, "one_term_histories": 4, "wide": 400, "wide_cap": 150000}}
 REQUIRED = ["oracle.dense", "oracle.sparse", "oracle.dense.segment", "oracle.sparse.key", "oracle.constant.dense",
             "oracle.constant.sparse", "oracle.ns.scalar", "oracle.ns.none", "oracle.ns.empty", "oracle.ns.absent",
             "oracle.ns.string", "oracle.pow>=4.feat>=3", "oracle.repeated-const", "oracle.repeated-term",
             "oracle.reused-encoder", "termlists.enumerated", "oracle.history", "oracle.history.encode",
             "oracle.history.kept-unchanged", "oracle.history.result-edited", "oracle.history.input-edited",
             "oracle.history.encode-after-result-edit", "oracle.history.encode-after-input-edit",
-            "oracle.history.equal-values-after-result-edit", "oracle.history.same-object-again"]
+            "oracle.history.equal-values-after-result-edit", "oracle.history.same-object-again",
+            "oracle.wide", "oracle.wide.dense-call", "oracle.wide.mapping-call.vector-ns", "oracle.wide.mapping-call.mapping-ns",
+            "oracle.wide.mapping-call.string-in-wide-vector", "oracle.wide.width>=2^8", "oracle.wide.width>=2^10", "oracle.wide.width>=2^12",
+            "oracle.wide.pow>=2", "oracle.wide.crossed", "oracle.wide.onehot"]
 ASSUMPTIONS = [
     "order of monomials inside one term is not checked (the statement does not claim it); the order of terms and 'constant first' are checked for vectors only - a mapping has no order",
     "several numeric constants: one leading entry equal to their sum (what coba documents in its tests) or each constant in turn are both accepted; a constant (sum) of 0 may be present or omitted",
@@ -45,6 +54,7 @@ ASSUMPTIONS = [
     "sparse keys are decoded with coba's documented naming (namespace letter + feature key/index + string value, concatenated); feature keys and string values never contain the letters x/a and are distinct after str(), so decoding is unambiguous",
     "when a namespace that no term uses is the only sparse/string input, list or mapping output are both accepted",
     "histories: what encode returns is taken to be the caller's own vector / mapping (a caller may edit it in place) and what was passed stays the caller's too: each encode is held against the expansion of the values passed to THAT call (the current content of an edited container), and a result the caller kept must stay as returned / as the caller left it; results that cannot be edited in place (not a list / dict) are only kept and compared; only plain lists and dicts are edited as inputs",
+    "wide namespaces: the statement sets no limit on the number of features, so the same oracle is applied unchanged; string values inside wide vectors / mappings are letters only, so that 'position + text' can never spell another position",
     "the empty term '' and namespaces other than x and a are outside the statement and not generated; all arithmetic is exact (ints, dyadic floats)",
 ]
 
@@ -148,6 +158,100 @@ def gen_case(rng, index=None, n_inputs=3, history=False):
     spec = {"index": index, "terms": terms, "inputs": [gen_input(rng) for _ in range(n_inputs)]}
     if history: spec["history"] = gen_history(rng, n_inputs)
     return spec
+
+# ------------------------------------------------------------------------------------------ wide namespaces
+WIDE      = 64                                                  # a namespace this wide counts as 'wide' in the counters
+WTERMS    = [(1, 0), (0, 1), (1, 0), (0, 1), (2, 0), (1, 1), (1, 1), (0, 2), (3, 0), (2, 1), (1, 2), (0, 3)]
+WTEXTS    = ["b", "c", "d", "zz", "Q", "e_f", "é"]              # letters only: position + text never spells another position
+_BIG      = []
+
+def big_primes():
+    """the primes 5 <= p < 1000000 (78496 of them: more than two namespaces of the largest width)"""
+    if not _BIG:
+        n = 1000000
+        sieve = bytearray([1]) * n
+        sieve[0:2] = b"\0\0"
+        for i in range(2, int(n**.5) + 1):
+            if sieve[i]: sieve[i*i::i] = bytearray(len(range(i*i, n, i)))
+        _BIG.extend(i for i in range(5, n) if sieve[i])
+    return _BIG
+
+def draw_width(rng, kmax):
+    """a width from every scale up to 2^kmax: just below / at / just above a power of two or of ten, or in between"""
+    k = rng.randint(3, max(3, kmax))
+    base = 2**k
+    r = rng.random()
+    if r < .15: return base - 1
+    if r < .30: return base
+    if r < .50: return base + 1
+    if r < .65:
+        tens = [t + d for t in (10, 100, 1000, 10000) for d in (-1, 0, 1) if base <= t + d < 2*base]
+        if tens: return rng.choice(tens)
+    return rng.randint(base, 2*base - 1)
+
+def expansion_size(terms, widths):
+    return sum(math.prod(math.comb(widths[ns] + p - 1, p) for ns, p in Counter(t).items()) for t in terms if not is_num(t))
+
+def width_of(inp):
+    return {"absent": 0, "none": 0, "scalar": 1, "str": 1}.get(inp["k"]) if inp["k"] not in ("seq", "map") else len(inp.get("v", inp.get("items")))
+
+def gen_wide_ns(rng, n, fam, primes, form):
+    """form: 'seq' numbers only, 'seq+str' a vector holding 1-3 strings, 'map'"""
+    if   fam == "prime":  vals = [primes.pop() for _ in range(n)]
+    elif fam == "onehot":
+        vals = [0]*n
+        vals[n-1 if rng.random() < .5 else rng.randrange(n)] = 1
+    else:                 vals = [rng.choice(PLAIN) for _ in range(n)]
+    if form == "seq+str" or (form == "map" and rng.random() < .3):
+        where = {n-1} if rng.random() < .6 else set()
+        while len(where) < rng.randint(1, 3): where.add(rng.randrange(n))
+        for i in where: vals[i] = rng.choice(WTEXTS)
+    if form != "map":
+        return {"k": "seq", "v": vals, "as": rng.choice(["list", "list", "tuple", "lazy", "hashable"])}
+    r = rng.random()
+    if   r < .35: keys = [f"f{i}" for i in range(n)]
+    elif r < .55: keys = [f"{i}" for i in range(n)]
+    elif r < .80: keys = list(range(n))
+    else:         keys = rng.sample(range(3*n + 7), n)
+    if rng.random() < .6: rng.shuffle(keys)
+    return {"k": "map", "items": [[k, v] for k, v in zip(keys, vals)], "as": rng.choice(["dict", "dict", "lazy", "hashable"])}
+
+def gen_wide_case(rng, cap=60000, n_inputs=2):
+    terms = [spell(rng, rng.choice(WTERMS)) for _ in range(rng.choice([1, 1, 1, 2, 2, 3]))]
+    used  = sorted(set("".join(terms)))
+    r = rng.random()
+    for _ in range(0 if r < .5 else 1 if r < .85 else 2):
+        terms.insert(rng.randint(0, len(terms)), rng.choice(CONSTS))
+    inputs = []
+    for _ in range(n_inputs):
+        fam  = rng.choice(["prime", "prime", "prime", "onehot", "onehot", "plain"])
+        wide = list(used) if len(used) > 1 and rng.random() < .2 else [rng.choice(used)]
+        r = rng.random()
+        call = "dense" if r < .3 else "other-ns-sparse" if r < .6 else "string-in-wide" if r < .75 else "map"
+        if call == "other-ns-sparse" and len(wide) > 1: call = "map"
+        kmax = 14
+        while True:                                              # widths lowered until the expansion stays under the cap
+            widths = {ns: draw_width(rng, kmax) if ns in wide else 6 for ns in NS}
+            if expansion_size(terms, widths) <= cap or kmax <= 3: break
+            kmax -= 1
+        primes = big_primes()
+        at = rng.randrange(12, len(primes) - sum(widths.values()) - 20)        # the primes <= 43 stay free for the narrow namespace
+        pool = primes[at:at + sum(widths.values()) + 20]; rng.shuffle(pool)
+        small = [p for p in PRIMES if p not in pool]; rng.shuffle(small)
+        inp = {"fam": fam}
+        for ns in NS:
+            if ns in wide:
+                form = "seq" if call in ("dense", "other-ns-sparse") else "seq+str" if call == "string-in-wide" else "map"
+                if call == "map" and len(wide) > 1 and ns == wide[1] and rng.random() < .5: form = "seq"
+                inp[ns] = gen_wide_ns(rng, widths[ns], fam, pool, form)
+            else:
+                sfam = "prime" if fam == "prime" else "plain"
+                while True:
+                    d = gen_ns(rng, sfam, list(small), dense_only=(call == "dense"))
+                    if call != "other-ns-sparse" or is_sparse_input(d): break
+                inp[ns] = d
+        inputs.append(inp)
+    return {"index": None, "terms": terms, "inputs": inputs, "wide": True}
 
 # ------------------------------------------------------------------------------------------ reference model
 def is_num(t): return not isinstance(t, str)
@@ -287,7 +391,7 @@ def evaluate(case, encoder=None, note=None, kw=None, io=None):
         if not isinstance(key, str): return ("bad-key", f"key {key!r} is not a string")
         toks = re.findall(r"[xa][^xa]*", key)
         if "".join(toks) != key or not toks: return ("bad-key", f"key {key!r} does not decode into namespace-prefixed features")
-        if any(t not in known[t[0]] for t in toks): return ("bad-key", f"key {key!r} names a feature that is not in the input ({sorted(known['x'])} {sorted(known['a'])})")
+        if any(t not in known[t[0]] for t in toks): return ("bad-key", f"key {key!r} names a feature that is not in the input ({sorted(known['x'])[:8]} {sorted(known['a'])[:8]})")
         mono = tuple(sorted(toks))
         if mono not in exp_max: return ("extra-monomial", f"key {key!r} is no monomial of any term")
         want = math.prod(known[t[0]][t] for t in toks)
@@ -336,6 +440,22 @@ def diagnose_dense(out, nums, sterms, monos):
     return ("wrong-value", f"missing {sorted(missing.elements(), key=repr)[:6]} extra {sorted(extra.elements(), key=repr)[:6]}; " + brief)
 
 # ------------------------------------------------------------------------------------------ shrinking and signatures
+SHRINK_WORK = [0]                                               # monomials expanded by the shrinker in this process
+
+def _cuts(n):
+    """slices to drop from a container of n features: up to 8 every single one (as before); wider ones lose halves,
+    quarters, ... and finally single features at either end, so that a wide container shrinks in O(log n) steps"""
+    if n <= 1: return
+    if n <= 8:
+        for i in range(n): yield (i, i + 1)
+        return
+    size = n // 2
+    while size >= 1:
+        yield (0, size)
+        yield (n - size, n)
+        if size > 1: yield ((n - size) // 2, (n - size) // 2 + size)
+        size //= 2
+
 def _simpler(case):
     terms = case["terms"]
     for i in range(len(terms)):
@@ -357,7 +477,7 @@ def _simpler(case):
             for c in sorted(set(t)):
                 yield dict(case, terms=[c if u == t else u for u in terms])
     if case.get("fam") != "shrunk-primes":                      # distinct primes >= 5 (never equal to a constant) name the monomials
-        pool = iter([5, 7, 11, 13, 17, 19, 23, 29, 31, 37, 41, 43, 47, 53])
+        pool = iter(big_primes())
         def prime(inp):
             if inp["k"] == "scalar": return dict(inp, v=next(pool))
             if inp["k"] == "seq": return dict(inp, v=[e if isinstance(e, str) else next(pool) for e in inp["v"]])
@@ -369,16 +489,14 @@ def _simpler(case):
         k = inp["k"]
         if k == "seq":
             v = inp["v"]
-            if len(v) > 1:
-                for i in range(len(v)): yield dict(case, **{ns: dict(inp, v=v[:i] + v[i+1:])})
+            for lo, hi in _cuts(len(v)): yield dict(case, **{ns: dict(inp, v=v[:lo] + v[hi:])})
             if not v: yield dict(case, **{ns: dict(inp, v=[103 if ns == "x" else 107])})
             if inp.get("as", "list") != "list": yield dict(case, **{ns: dict(inp, **{"as": "list"})})
             for i, e in enumerate(v):
                 if isinstance(e, str): yield dict(case, **{ns: dict(inp, v=v[:i] + [101 + 2*i] + v[i+1:])})
         elif k == "map":
             it = inp["items"]
-            if len(it) > 1:
-                for i in range(len(it)): yield dict(case, **{ns: dict(inp, items=it[:i] + it[i+1:])})
+            for lo, hi in _cuts(len(it)): yield dict(case, **{ns: dict(inp, items=it[:lo] + it[hi:])})
             if not it: yield dict(case, **{ns: {"k": "seq", "v": [], "as": "list"}})
             if inp.get("as", "dict") != "dict": yield dict(case, **{ns: dict(inp, **{"as": "dict"})})
             for i, (key, e) in enumerate(it):
@@ -390,19 +508,24 @@ def _simpler(case):
         elif k == "none":   yield dict(case, **{ns: {"k": "seq", "v": [], "as": "list"}})
         elif k == "absent": yield dict(case, **{ns: {"k": "none"}})
 
-def shrink(case, limit=400):
-    """greedy: adopt the first simpler case that still disagrees with the reference (whatever the mode), repeat"""
+def shrink(case, limit=400, work=1500000):
+    """greedy: adopt the first simpler case that still disagrees with the reference (whatever the mode), repeat.
+    Bounded by the number of candidates (narrow cases: 400 as before, wide ones 1500) and by the number of monomials
+    the candidates expand to (deterministic, only wide cases can reach it)"""
     n = 0
+    if max(width_of(case[ns]) for ns in NS) > 8: limit = max(limit, 1500)
     progress = True
-    while progress and n < limit:
+    while progress and n < limit and work > 0:
         progress = False
         for cand in _simpler(case):
             n += 1
+            work -= expansion_size(cand["terms"], {ns: width_of(cand[ns]) for ns in NS})
             r = evaluate(cand)
             if r is not None:
                 case, progress = cand, True
                 break
-            if n >= limit: break
+            if n >= limit or work <= 0: break
+    SHRINK_WORK[0] += 1500000 - work
     return case
 
 def signature(case, mode):
@@ -421,6 +544,8 @@ def signature(case, mode):
     if best[0] >= 2:                                            # only what the shrinker could not take away
         flags.append("pow=" + (str(best[0]) if best[0] < 4 else "4+"))
         if best[1] >= 3: flags.append("feat=" + (str(best[1]) if best[1] < 4 else "4+"))
+    wmax = max([width_of(case[ns]) for ns in NS if ns in "".join(sterms)] or [0])
+    if wmax > 8: flags.append(f"wide-ns>2^{(wmax - 1).bit_length() - 1}")     # what the shrinker left: 257..512 features -> '>2^8'
     kinds = set()
     for ns in NS:
         inp = case[ns]
@@ -445,7 +570,13 @@ def signature(case, mode):
 def report_single(case, fresh):
     small = shrink(case)
     r2 = evaluate(small) or fresh
-    return (signature(small, r2[0]), f"{r2[1]} | minimal: terms={small['terms']} x={small['x']} a={small['a']} | original: terms={case['terms']} x={case['x']} a={case['a']}")
+    return (signature(small, r2[0]), f"{r2[1]} | minimal: terms={small['terms']} x={brief(small['x'])} a={brief(small['a'])} | original: terms={case['terms']} x={brief(case['x'])} a={brief(case['a'])}")
+
+def brief(inp):
+    """the description of a namespace with long feature lists cut to both ends (the witness holds all of it)"""
+    for f in ("v", "items"):
+        if f in inp and len(inp[f]) > 14: return dict(inp, **{f: inp[f][:6] + [f"... {len(inp[f]) - 12} more ..."] + inp[f][-6:]})
+    return inp
 
 def snap(obj):
     if isinstance(obj, Mapping): return ("map", dict(obj))
@@ -618,11 +749,25 @@ def check_case(spec, ctx=None):
             if len(nums) > 1: ctx.count("oracle.repeated-const")
             if len({canon(t) for t in sterms}) < len(sterms): ctx.count("oracle.repeated-term")
             if n > 0: ctx.count("oracle.reused-encoder")
+            wide = [ns for ns in NS if ns in "".join(sterms) and len(feats[ns]) >= WIDE]
+            if wide and nonempty:
+                mapping_call = any(is_sparse_input(case[ns]) for ns in NS)
+                ctx.count("oracle.wide")
+                if not mapping_call: ctx.count("oracle.wide.dense-call")
+                for ns in wide:
+                    if mapping_call and case[ns]["k"] == "seq": ctx.count("oracle.wide.mapping-call.vector-ns")
+                    if mapping_call and case[ns]["k"] == "map": ctx.count("oracle.wide.mapping-call.mapping-ns")
+                    if case[ns]["k"] == "seq" and has_string(case[ns]): ctx.count("oracle.wide.mapping-call.string-in-wide-vector")
+                    if spec["inputs"][n].get("fam") == "onehot": ctx.count("oracle.wide.onehot")
+                    for k in (8, 10, 12, 14):
+                        if len(feats[ns]) >= 2**k: ctx.count(f"oracle.wide.width>=2^{k}")
+                    if any(Counter(t)[ns] >= 2 for t in sterms): ctx.count("oracle.wide.pow>=2")
+                    if any(len(set(t)) > 1 and all(feats[m] for m in set(t)) and ns in t for t in sterms): ctx.count("oracle.wide.crossed")
         if r is None: continue
         mode, detail = r
         fresh = evaluate(case)
         if fresh is None:
-            viol.append((f"encode/mode={mode}/only-on-reused-encoder", f"encode #{n+1} on one encoder: {detail}; a fresh encoder is correct; terms={terms} x={inp['x']} a={inp['a']}"))
+            viol.append((f"encode/mode={mode}/only-on-reused-encoder", f"encode #{n+1} on one encoder: {detail}; a fresh encoder is correct; terms={terms} x={brief(inp['x'])} a={brief(inp['a'])}"))
             continue
         viol.append(report_single(case, fresh))
     if spec.get("history"): viol += check_history(spec, ctx)
@@ -643,6 +788,14 @@ def run_shard(ctx):
             if sig in seen: continue
             seen.add(sig)
             ctx.violation(sig, what, spec)
+    nwide, wide_done = ctx.plan.get("wide", 0), [0]
+    def visit_wide():                                           # every shard: namespaces far wider than the enumeration uses
+        wide_done[0] += 1
+        if SHRINK_WORK[0] > 6000000:                             # only on a tree that already has violations reported
+            ctx.count("wide.skipped-after-many-violations"); return
+        visit(gen_wide_case(ctx.rng, ctx.plan.get("wide_cap", 60000)))
+        ctx.count("wide.cases")
+    every = max(1, ctx.n // max(1, nwide))                      # spread over the enumeration: a time cut takes from both alike
     for rep in range(ctx.plan.get("one_term_histories", 2)):     # every shard: a history on every one-term encoder
         for index in range(OFFS[1]):
             visit(gen_case(ctx.rng, index, k, history=True))
@@ -655,6 +808,8 @@ def run_shard(ctx):
         visit(spec)
         ctx.count("termlists.enumerated")
         done += 1
+        if done % every == 0 and wide_done[0] < nwide: visit_wide()
+    while wide_done[0] < nwide and (ctx.time_left() > 0 or wide_done[0] < 8): visit_wide()
     if done < ctx.n:
         ctx.extra["termlists_skipped_for_time"] = ctx.n - done
         if ctx.tier == "thorough": ctx.note_inconclusive(f"shard{ctx.shard}: enumeration cut short by the time budget ({done}/{ctx.n})")
